@@ -1,8 +1,8 @@
 """registry entry of C04 (Lean files carrying the obligations, correspondence script, labels)"""
 from reg._common import COMMON_ASSUME
 
-ENTRY = {'lean_files': ['Tables/C04.lean', 'Props/C04.lean'],
- 'lemma_files': ['Lemmas/Shift.lean',
+ENTRY = {'lean_files': ['Tables/C04.lean', 'Props/C04.lean', 'Props/C04Rounding.lean'],
+ 'lemma_files': ['Lemmas/Rounding.lean', 'Lemmas/RoundingMore.lean', 'Lemmas/Shift.lean',
                  'Lemmas/Bridge.lean',
                  'Lemmas/Subdivide.lean',
                  'Model/Basic.lean',
@@ -13,7 +13,9 @@ ENTRY = {'lean_files': ['Tables/C04.lean', 'Props/C04.lean'],
          "with the model's exact control points); T: binary64 nets / parameters (tolerance 4(3n+3)u * "
          'abs-blossom); junction: left[:, -1] == right[:, 0] bitwise on random binary64 nets; non-trivial = '
          'net not all zero; distinct by hash of exact inputs',
- 'partial': [],
+ 'partial': [
+                'rounding theorems (Props/C04Rounding, standard model): specialisation exponent 3n (generic, both variants), 3 / 6 for the Fortran closed forms with 2 / 3 nodes (the middle coefficient b + a - 2ab cancels: scale (1+M)^2 sum|v|, constant 13 for every M, 8 for M <= 1), subdivision exponent n+2; side condition DyadicExact (dyadic weights exact, true in binary64 for n <= 52) discharged in Lean for the computed matrices; the script comparators 4(3n+3)u and 13u sum|v|(1+M)^n exceed the proven bounds; that binary64 satisfies the standard model is trusted',
+    ],
  'trusted_base': ['modelled not verified: subdivide_nodes / make_subdivision_matrices / specialize_curve in '
                   'curve_helpers.py and curve.f90; Curve.subdivide / Curve.specialize glue; BLAS computes '
                   'equal dot products identically (junction on the Python path)'],
